@@ -494,6 +494,36 @@ example : cmux false 1 4 3 [[[1], [2], [3]], [[0], [1], [0]]] [[[0], [0], [1]], 
         staleG (zeroCols 1 2 4) (zeroCols 1 2 4)).getD j []) ([[[0], [0], [1]], [[0], [0], [0]]].getD j [])) 4)) :=
   cmux_accumulator false 1 4 3 _ _ staleG _ _ (by decide)
 
+/-- `Cswap::cswap` → the executed product: both outputs are normalisations of `res_a + P` and `res_b − P` with
+`P = epInternal (res_b − res_a)`; `ep_executed_identity` applied to `a := res_b − res_a` is the executed form of `cswap_swaps`. -/
+theorem cswap_accumulator (big128 : Bool) (n rb : Nat) (ra rbb : List Col) (g : EpGGSW) (res0 tmp0 : List Col)
+    (hg : (g.n == n && g.wf && shapeOk n (g.rank + 1) (ra.getD 0 []).length ra && shapeOk n (g.rank + 1) (rbb.getD 0 []).length rbb) = true)
+    (hb : rb = g.base2k) :
+    cswap big128 n rb ra rbb g res0 tmp0 =
+      (match (List.range (g.rank + 1)).mapM (fun j => epBigNormalize big128 n rb (ra.getD 0 []).length
+          (bigAddSmallInto big128 n g.size
+            ((epInternal (glweSubSameRank n (max (ra.getD 0 []).length (rbb.getD 0 []).length) rbb ra) g res0 tmp0).getD j []) (ra.getD j [])) g.base2k),
+        (List.range (g.rank + 1)).mapM (fun j => epBigNormalize big128 n rb (rbb.getD 0 []).length
+          (bigSubSmallA big128 n g.size (rbb.getD j [])
+            ((epInternal (glweSubSameRank n (max (ra.getD 0 []).length (rbb.getD 0 []).length) rbb ra) g res0 tmp0).getD j [])) g.base2k) with
+      | some x, some y => .ok (x, y)
+      | _, _ => .err "fuel") := by
+  subst hb
+  unfold cswap
+  simp only [hg, Bool.not_true, Bool.false_eq_true, if_false, ne_eq, not_true_eq_false]
+  split <;> split <;> simp_all
+
+example : cswap false 1 4 [[[1], [2], [3]], [[0], [1], [0]]] [[[0], [0], [1]], [[0], [0], [0]]] staleG (zeroCols 1 2 4) (zeroCols 1 2 4) =
+    (match (List.range 2).mapM (fun j => epBigNormalize false 1 4 3 (bigAddSmallInto false 1 4
+          ((epInternal (glweSubSameRank 1 (max 3 3) [[[0], [0], [1]], [[0], [0], [0]]] [[[1], [2], [3]], [[0], [1], [0]]]) staleG
+            (zeroCols 1 2 4) (zeroCols 1 2 4)).getD j []) ([[[1], [2], [3]], [[0], [1], [0]]].getD j [])) 4),
+      (List.range 2).mapM (fun j => epBigNormalize false 1 4 3 (bigSubSmallA false 1 4 ([[[0], [0], [1]], [[0], [0], [0]]].getD j [])
+          ((epInternal (glweSubSameRank 1 (max 3 3) [[[0], [0], [1]], [[0], [0], [0]]] [[[1], [2], [3]], [[0], [1], [0]]]) staleG
+            (zeroCols 1 2 4) (zeroCols 1 2 4)).getD j [])) 4) with
+    | some x, some y => .ok (x, y)
+    | _, _ => .err "fuel") :=
+  cswap_accumulator false 1 4 _ _ staleG _ _ (by decide) rfl
+
 /-! ## Row expansion on the executed model, every key digit size and every rank -/
 
 /-- **`expand_product_phase`** — the gadget product `Core.expandRowCols` executes for output column `c+1`
